@@ -71,6 +71,10 @@ struct FuncSel {
     /// optional text put in front of the function (e.g. a verifier attribute)
     #[serde(default)]
     prefix: String,
+    /// mode = "assume" only: placeholder body of the external_body function (default
+    /// `unimplemented!()`; functions returning `impl Fn` need a closure expression to type-check)
+    #[serde(default)]
+    assume_body: String,
 }
 fn default_mode() -> String {
     "verify".into()
@@ -520,7 +524,11 @@ fn emit_fn(parts: FnParts, sel: &FuncSel, with_pub: bool, indent: usize, dropped
     }
     let src_body = parts.block.to_token_stream().to_string();
     if external {
-        s.push_str("{ unimplemented!() }\n");
+        if sel.assume_body.is_empty() {
+            s.push_str("{ unimplemented!() }\n");
+        } else {
+            let _ = writeln!(s, "{{ {} }}", sel.assume_body);
+        }
     } else {
         let mut blk = parts.block.clone();
         let wanted: Vec<usize> = sel.loop_spec.iter().map(|l| l.ordinal).collect();
